@@ -21,15 +21,45 @@ fn de(tid: u64, input: &str) -> J {
     }
 }
 
+// ---- the same through a real request: the typed extractor `typed::header::Cookie<T>` in a handler's signature and `req.headers.Cookies()`
+mod served {
+    use super::*;
+    use ohkami::prelude::*;
+    use ohkami::typed::header::Cookie;
+    use std::sync::Mutex;
+    pub static SEEN: Mutex<Option<J>> = Mutex::new(None);
+    macro_rules! schema { ($($t:ty),*) => {$( impl ohkami::openapi::Schema for $t { fn schema() -> impl Into<ohkami::openapi::schema::SchemaRef> { ohkami::openapi::object() } } )*} }
+    schema!(J0, J1<'_>, J2, J3);
+    fn saw(v: J) -> &'static str { *SEEN.lock().unwrap() = Some(v); "ran" }
+    async fn h0(Cookie(v): Cookie<J0>) -> &'static str { saw(json!({"struct": [["a", v.a.canon()], ["tok", v.tok.canon()], ["n", v.n.canon()]]})) }
+    async fn h1(Cookie(v): Cookie<J1<'_>>) -> &'static str { saw(json!({"struct": [["s", v.s.canon()], ["b", v.b.canon()]]})) }
+    async fn h2(Cookie(v): Cookie<J2>) -> &'static str { saw(json!({"struct": [["id", v.id.canon()], ["d", v.d.canon()], ["neg", v.neg.canon()]]})) }
+    async fn h3(Cookie(v): Cookie<J3>) -> &'static str { saw(json!({"struct": [["x", v.x.canon()], ["y", v.y.canon()], ["z", v.z.canon()]]})) }
+    async fn it(req: &Request) -> &'static str { saw(json!(req.headers.Cookies().map(|(k, v)| json!([hex(k.as_bytes()), hex(v.as_bytes())])).collect::<Vec<_>>())) }
+    /// GET `path` with `Cookie: input` through the real parser, router and extractor: {"ran", "status", "value"} or {"refused"} when the parser refuses the request
+    pub fn get(path: &str, input: &[u8]) -> J {
+        thread_local! { static APP: ohkami::testing::TestingOhkami = { use ohkami::testing::Testing; Ohkami::new(("/0".GET(h0), "/1".GET(h1), "/2".GET(h2), "/3".GET(h3), "/it".GET(it))).test() }; }
+        *SEEN.lock().unwrap() = None;
+        let w = APP.with(|t| crate::apps::wire(t, "GET", path.as_bytes(), &[(b"Cookie".to_vec(), input.to_vec())], b""));
+        let status = match &w { Ok(w) if w.len() >= 12 => std::str::from_utf8(&w[9..12]).ok().and_then(|s| s.parse::<u16>().ok()).unwrap_or(0), _ => 0 };
+        let seen = SEEN.lock().unwrap().take();
+        if seen.is_none() && (status == 400 || status == 0) { return json!({"refused": status}) }       // the request parser refused the header line
+        json!({"ran": seen.is_some(), "status": status, "value": seen})
+    }
+}
+
 pub fn run_case(c: &J) -> J {
     match c["kind"].as_str().unwrap() {
         "struct" => {
             let input = unhex(c["input"].as_str().unwrap());
-            match std::str::from_utf8(&input) { Ok(s) => de(c["tid"].as_u64().unwrap(), s), Err(_) => json!({"outcome": "not-utf8-input"}) }
+            let tid = c["tid"].as_u64().unwrap();
+            match std::str::from_utf8(&input) {
+                Ok(s) => { let mut o = de(tid, s); o["served"] = served::get(&format!("/{tid}"), &input); o }
+                Err(_) => json!({"outcome": "not-utf8-input"}) }
         }
         "iter" => {
             let input = string(unhex(c["input"].as_str().unwrap()));
-            json!({"pairs": ohkami::util::iter_cookies(&input).map(|(k, v)| json!([hex(k.as_bytes()), hex(v.as_bytes())])).collect::<Vec<_>>()})
+            json!({"pairs": ohkami::util::iter_cookies(&input).map(|(k, v)| json!([hex(k.as_bytes()), hex(v.as_bytes())])).collect::<Vec<_>>(), "served": served::get("/it", input.as_bytes())})
         }
         "setcookie" => {
             pin_clock(PINNED_CLOCK);
